@@ -150,3 +150,19 @@ def cycle_rows(rng, k):
                 rows[kmers[i]][nxt] = kmers[(i + 1) % period]
             return rows
     return regular_closed_rows(rng, k, 1)
+
+
+def hub_rows(rng, k, hub):
+    """A sparse graph whose branching runs through one boundary vertex (index 0 = A..A or the last index = T..T): the hub
+    has a self-loop and one more arc, all four predecessors of the hub point to it, the rest is a thin random arc set.
+    (Sentinel slips such as `> 0` for `>= 0` only show where vertex 0 matters.)"""
+    n = 4 ** k
+    rows = arcs_to_rows(random_arcs(rng, k, "any", density=rng.choice([0.08, 0.15, 0.25])), k)
+    lat = M.latters(hub, k)
+    rows[hub] = [-1, -1, -1, -1]
+    rows[hub][hub % 4] = hub                      # self-loop: aperiodic
+    other = rng.choice([j for j in range(4) if j != hub % 4])
+    rows[hub][other] = lat[other]
+    for p in M.formers(hub, k):
+        rows[p][hub % 4] = hub
+    return rows
